@@ -45,6 +45,7 @@ def run(ck, fb):
     r18h(ck, fb)
     r18i(ck, fb)
     r18j(ck, fb)
+    r18k(ck, fb)
 
 
 def find_generic(fb, suffix):
@@ -574,3 +575,45 @@ def r18j(ck, fb):
     ck.require(ok, 'R18j', 'session:namespace-privilege-from-user-record', b.where(),
                'the session is returned as it was stored at login: dev1 logs in, the admin restricts him to ns1 (the user record refuses ns2), the old '
                'token still reads password=ns2-secret from v2/config/info?tenant=ns2', 'refreshed from the user record')
+
+
+def r18k(ck, fb, R='R18k'):
+    ck.rule(R, 'the lists a user is restricted by are stored as given: wherever the user module builds namespace_white_list / namespace_black_list '
+               '(add_user, update_user and their helpers) the value is a plain copy of the request\'s list - an iterator chain of iter / map / '
+               'cloned / collect without filter, skip, take, retain, dedup, and without trimming in the mapped closure. The id of the default '
+               'namespace is the empty string: "drop blank entries" silently removes it from a blacklist and the user is let into it')
+    DROP = re.compile(r'Iterator::(filter|filter_map|skip|skip_while|take|take_while|step_by|flat_map|flatten)$|Vec::<T, A>::(retain|dedup|truncate|drain|dedup_by_key)$')
+    TRIM = re.compile(r'str>::trim|<impl str>::trim|::trim$|::trim_(start|end|matches)$')
+    n = 0
+    for b in fb.bodies.values():
+        if not (b.name.startswith('rnacos::user::') or b.name.startswith('<rnacos::user::')) or '::tests::' in b.name or 'serde' in b.name or '::_::' in b.name:
+            continue
+        ops = []
+        for (o, f, bb, st) in b.field_writes():
+            if f in ('namespace_white_list', 'namespace_black_list'):
+                from rn.facts import rv_operands
+                for x in rv_operands(st['rv']):
+                    ops.append((f, bb, x))
+        for (i, j, st) in b.aggregates(r'user::model::UserDo$'):
+            rv = st['rv']
+            for f, x in zip(rv['fields'], rv['ops']):
+                if f in ('namespace_white_list', 'namespace_black_list'):
+                    ops.append((f, i, x))
+        for (f, bb, x) in ops:
+            chain = util.value_chain(fb, b, x)
+            names = [cfg.callee_name(t) or '' for (_b, t) in chain]
+            if not any(nm.endswith('::collect') or 'FromIterator' in nm for nm in names):
+                continue    # Default::default(), clone of the stored value ...
+            n += 1
+            ck.analysed(b)
+            drops = [nm for nm in names if DROP.search(nm)]
+            trims = []
+            for (cb, t) in chain:
+                if (cfg.callee_name(t) or '').endswith('Iterator::map'):
+                    for c in util.closures_passed(fb, cb, t):
+                        trims += [s.callee for s in c.sites if s.callee and TRIM.search(s.callee)]
+            ck.require(not drops and not trims, R, '%s:%s:stored-as-given' % (fb.root_of(b.name).split('::')[-1], f), b.where(bb),
+                       '%s builds %s through %s: entries of the list the administrator gave can be dropped or altered before they are stored - the '
+                       'default namespace (id "") vanishes from a blacklist, and the user may read and change it'
+                       % (fb.root_of(b.name), f, sorted(set(x.split('::')[-1] for x in drops + trims))), 'iter/map/collect only')
+    ck.floor(R, 'privilege lists built in the user module', n, 4)
